@@ -296,7 +296,7 @@ pub fn run(tier: Tier) -> i32 {
     let mut run = Run::new("C12", tier, "exploration");
     let p = LineEndings;
     run.replays("lf-crlf-metamorphic", &p);
-    run.generated("lf-crlf-metamorphic", &p, tier.pick(80_000, 3_000_000));
+    run.generated("lf-crlf-metamorphic", &p, tier.pick(400_000, 3_000_000));
     // exhaustive tiny structures
     let max_cap = if tier == Tier::Quick { 8 } else { 12 };
     run.exhaustive("tiny-structures", "FASTA: lead 0..=2 x up to 2 records (head in {'', 'a'}, 0..=2 lines in {'', 'A', 'AC'}) x final terminator x trail 0..=1; FASTQ: up to 2 records (head in {'', 'a'}, seq in {'', 'A', 'AC'}) x final terminator x trail 0..=2; LF vs CRLF; capacities 3..=N both sides", |ctx| {
